@@ -7,5 +7,8 @@ CONSTANTS
   MaxNotifs = 2
   Lazy = TRUE
   DrainAfterIdle = FALSE
+  Resumed = FALSE
+  Age = 0
+  StartWaitIdle = FALSE
 INVARIANTS NotFaster NoLostWakeup Regular
 CHECK_DEADLOCK FALSE
